@@ -34,11 +34,13 @@ def uptoLastDot : Bytes → Bytes
   | [] => []
   | c :: rest => if rest.contains 46 then c :: uptoLastDot rest else if c == 46 then [] else c :: rest
 
-def NameE.eval : NameE → Bytes → Bytes
+def NameE.eval (c : PubCfg) : NameE → Bytes → Bytes
   | .sym, s => s
   | .firstSeg, s => C20.firstSeg s
   | .uptoLastDot, s => C20.uptoLastDot s
   | .other _, s => s
+  | .mapKey n, s => c.mapKey (n.eval c s)
+  | .symKey n, s => c.symKey (n.eval c s)
 
 def StoreTbl.keys (c : PubCfg) : StoreTbl → List Bytes
   | .pub => c.pub
@@ -50,13 +52,13 @@ def StoreTbl.keys (c : PubCfg) : StoreTbl → List Bytes
     makes it unguarded, the interpretation answers `false` there. -/
 def CondE.eval (par : Option (Bytes → Bool)) (c : PubCfg) (s : Bytes) : CondE → Bool
   | .const b => b
-  | .lookup t n => (t.keys c).contains (n.eval s)
+  | .lookup t n => (t.keys c).contains (n.eval c s)
   | .segsMoreThan n => decide ((splitDot s).length > n)
   | .dotNotFirst => s.contains 46 && s.head? != some 46
   | .lastDotNotFirst => (s.drop 1).contains 46
   | .hasParent => par.isSome
   | .parentPublic n => match par with
-    | some f => f (n.eval s)
+    | some f => f (n.eval c s)
     | none => false
   | .not a => !a.eval par c s
   | .and a b => a.eval par c s && b.eval par c s
